@@ -7,7 +7,7 @@ from trashcli.fstab.volume_of import VolumeOf
 
 
 def home_trash_dir_path_from_env(environ):
-    if 'XDG_DATA_HOME' in environ:
+    if environ.get('XDG_DATA_HOME'):
         return ['%(XDG_DATA_HOME)s/Trash' % environ]
     elif 'HOME' in environ:
         return ['%(HOME)s/.local/share/Trash' % environ]
